@@ -445,105 +445,169 @@ Hypothesis W_cap : W <= maxWindowCap.
 
 Notation Inv := (Inv sess W).
 
+(* phase 1: two consumer ticks; the second one is silent, so it re-registers under a fresh non-blank nonce *)
+Lemma phase_ticks s :
+  Inv s -> 1 <= c_nnonce (sC s) ->
+  let s2 := sys_step (sys_step s (TickCC true)) (TickCC true) in
+  Inv s2 /\ sP s2 = sP s /\ netCC s2 = netCC s /\
+  (exists l n2, netPC s2 = l ++ [Register n2] /\ n2 <> 0 /\ c_nonce (sC s2) = n2) /\
+  c_res (sC s2) = true /\ same_delivery (sC s) (sC s2).
+Proof.
+  intros I0 Hnn. cbv zeta.
+  pose proof (iC _ _ _ I0) as C0.
+  destruct (cc_step (sC s) (CTick false true)) as [c1 o1] eqn:H1.
+  destruct (tick_exact _ _ _ _ (ci_failed _ _ _ C0) H1) as (S1 & Hsaw1 & _).
+  assert (I1 : Inv (sys_step s (TickCC true))) by (apply step_inv; auto).
+  assert (Hnn1 : 1 <= c_nnonce c1) by (eapply nn_step; eassumption).
+  assert (E1 : sys_step s (TickCC true) = mkS (sP s) c1 (netPC s ++ outs_toPC o1) (netCC s) (toProd s) (toCons s ++ outs_toCons o1))
+    by (rewrite step_tick; apply sys_c_view; exact H1).
+  set (s1 := sys_step s (TickCC true)) in *.
+  assert (Hc1 : sC s1 = c1) by (rewrite E1; reflexivity).
+  pose proof (iC _ _ _ I1) as C1. rewrite Hc1 in C1.
+  destruct (cc_step c1 (CTick false true)) as [c2 o2] eqn:H2.
+  destruct (tick_exact _ _ _ _ (ci_failed _ _ _ C1) H2) as (S2 & Hsaw2 & Hreg2). destruct (Hreg2 Hsaw1) as (N2 & R2 & O2).
+  assert (I2 : Inv (sys_step s1 (TickCC true))) by (apply step_inv; auto).
+  assert (E2 : sys_step s1 (TickCC true) = mkS (sP s1) c2 (netPC s1 ++ [Register (c_nnonce c1)]) (netCC s1) (toProd s1) (toCons s1 ++ outs_toCons o2)).
+  { rewrite step_tick. rewrite <- Hc1 in H2. rewrite (sys_c_view s1 _ c2 o2 H2). rewrite O2. reflexivity. }
+  assert (F1 : sP s1 = sP s) by (rewrite E1; reflexivity).
+  assert (F2 : netCC s1 = netCC s) by (rewrite E1; reflexivity).
+  rewrite E2 in *. cbn [sP sC netCC netPC].
+  splits; auto.
+  - exists (netPC s1), (c_nnonce c1). splits; auto. lia.
+  - destruct S1 as (T1 & T2 & T3 & T4 & T5 & T6 & T7). destruct S2 as (U1 & U2 & U3 & U4 & U5 & U6 & U7).
+    unfold same_delivery. splits; congruence.
+Qed.
+
+(* phase 2: the registration reaches the producer controller *)
+Lemma phase_register s2 l n2 :
+  Inv s2 -> p_failed (sP s2) = false -> netPC s2 = l ++ [Register n2] -> n2 <> 0 ->
+  let s3 := sys_step s2 (lastPC s2) in
+  Inv s3 /\ sC s3 = sC s2 /\ netPC s3 = netPC s2 /\
+  netCC s3 = netCC s2 ++ [RegAck sess (p_conf (sP s2) + 1) n2] /\
+  p_reg (sP s3) = true /\ p_nonce (sP s3) = n2 /\ p_conf (sP s3) = p_conf (sP s2) /\ p_cur (sP s3) = p_cur (sP s2) /\
+  p_failed (sP s3) = false.
+Proof.
+  intros I2 Ha Hnet Hn. cbv zeta.
+  pose proof (iP _ _ _ I2) as P2.
+  destruct (p_register_exact (sP s2) n2 Ha ltac:(rewrite (pi_sess _ _ P2); exact sess_nz) ltac:(destruct (pi_range _ _ P2); assumption) Hn)
+    as (p3 & H3 & G1 & G2 & G3 & G4 & G5 & G6 & G7 & G8).
+  assert (I3 : Inv (sys_step s2 (lastPC s2))) by (apply step_inv; auto).
+  assert (E3 : sys_step s2 (lastPC s2) = mkS p3 (sC s2) (netPC s2) (netCC s2 ++ [RegAck (p_sess (sP s2)) (p_conf (sP s2) + 1) n2]) (toProd s2 ++ []) (toCons s2)).
+  { unfold lastPC. rewrite (step_deliverPC s2 _ (Register n2)); [|rewrite Hnet; apply nth_last]. rewrite (sys_p_view s2 _ p3 _ H3). reflexivity. }
+  rewrite E3 in *. cbn [sP sC netPC netCC]. pose proof (pi_sess _ _ P2) as Hse. rewrite Hse in *. splits; auto.
+Qed.
+
+(* phase 3: its acknowledgement reaches the consumer controller, which answers with a timeout Request *)
+Lemma phase_ack s3 l pc :
+  Inv s3 -> netCC s3 = l ++ [RegAck sess (pc + 1) (c_nonce (sC s3))] -> pc = p_conf (sP s3) -> c_res (sC s3) = true ->
+  let s4 := sys_step s3 (lastCC s3) in
+  let cc := c_conf (sC s3) in
+  Inv s4 /\ sP s4 = sP s3 /\ netCC s4 = netCC s3 /\
+  netPC s4 = netPC s3 ++ [Request sess (c_nonce (sC s3)) cc (cc + W) true] /\
+  c_sess (sC s4) = sess /\ c_nonce (sC s4) = c_nonce (sC s3) /\ c_conf (sC s4) = cc /\ c_upto (sC s4) = cc + W /\
+  c_res (sC s4) = true.
+Proof.
+  intros I3 Hnet -> Hres. cbv zeta.
+  pose proof (iC _ _ _ I3) as C3. pose proof (iP _ _ _ I3) as P3.
+  pose proof (pe_chain _ _ _ (iE _ _ _ I3)) as Hch.
+  destruct (c_regack_exact (sC s3) true sess (p_conf (sP s3) + 1) (ci_failed _ _ _ C3) Hres sess_nz (ci_sess _ _ _ C3))
+    as (c4 & H4 & V1 & V2 & V3 & V4 & V5 & V6 & V7 & V8 & V9 & V10).
+  { intros Hz. destruct (ci_unadopted _ _ _ C3 Hz) as (Z1 & Z2 & Z3 & Z4). pose proof (ci_exp _ _ _ C3).
+    destruct (pi_range _ _ P3). splits; auto; lia. }
+  assert (I4 : Inv (sys_step s3 (lastCC s3))) by (apply step_inv; auto).
+  assert (E4 : sys_step s3 (lastCC s3) = mkS (sP s3) c4 (netPC s3 ++ [Request sess (c_nonce (sC s3)) (c_conf (sC s3)) (c_conf (sC s3) + c_window (sC s3)) true]) (netCC s3) (toProd s3) (toCons s3 ++ [])).
+  { unfold lastCC. rewrite (step_deliverCC s3 _ true (RegAck sess (p_conf (sP s3) + 1) (c_nonce (sC s3)))); [|rewrite Hnet; apply nth_last].
+    rewrite (sys_c_view s3 _ c4 _ H4). reflexivity. }
+  rewrite E4 in *. cbn [sP sC netPC netCC]. rewrite (ci_w _ _ _ C3) in *. splits; auto.
+Qed.
+
+(* phase 4: the Request reaches the producer controller *)
+Lemma phase_request s4 l cc :
+  Inv s4 -> p_failed (sP s4) = false -> p_reg (sP s4) = true -> p_nonce (sP s4) = c_nonce (sC s4) ->
+  netPC s4 = l ++ [Request sess (c_nonce (sC s4)) cc (cc + W) true] -> cc = c_conf (sC s4) ->
+  p_cur (sP s4) < maxI64 - 1 -> p_conf (sP s4) < p_cur (sP s4) ->
+  let s5 := sys_step s4 (lastPC s4) in
+  (p_conf (sP s4) < cc /\ p_conf (sP s5) = cc) \/
+  (cc = p_conf (sP s4) /\ Inv s5 /\ sC s5 = sC s4 /\ netPC s5 = netPC s4 /\
+   (exists m1 rest, netCC s5 = netCC s4 ++ SeqMsg sess m1 (cc + 1) :: rest) /\
+   p_conf (sP s5) = p_conf (sP s4) /\ p_reg (sP s5) = true /\ p_nonce (sP s5) = p_nonce (sP s4) /\ p_failed (sP s5) = false).
+Proof.
+  intros I4 Ha Hr Hn Hnet Hcc Hmax Hlt. cbv zeta.
+  pose proof (iP _ _ _ I4) as P4. pose proof (iC _ _ _ I4) as C4.
+  pose proof (pe_chain _ _ _ (iE _ _ _ I4)) as Hch.
+  set (req := Request sess (c_nonce (sC s4)) cc (cc + W) true) in *.
+  assert (L5 : nth_error (netPC s4) (length (netPC s4) - 1) = Some req) by (rewrite Hnet; apply nth_last).
+  assert (E5 : sys_step s4 (lastPC s4) = fst (sys_p s4 (PFromCC true req))) by (unfold lastPC; apply step_deliverPC; exact L5).
+  assert (Hreq : req = Request (p_sess (sP s4)) (p_nonce (sP s4)) cc (cc + W) true) by (unfold req; rewrite (pi_sess _ _ P4), Hn; reflexivity).
+  destruct (Z_lt_le_dec (p_conf (sP s4)) cc) as [Hgt|Hle].
+  - left. split; [exact Hgt|]. rewrite E5. unfold sys_p.
+    assert (Hrep : p_conf (fst (pc_step (sP s4) (PFromCC true req))) = cc).
+    { apply (p_report_conf (sP s4) req cc Ha Hr).
+      - left. exists (cc + W), true. split; [exact Hreq|lia].
+      - lia.
+      - pose proof (ci_conf _ _ _ C4). lia. }
+    destruct (pc_step (sP s4) (PFromCC true req)). exact Hrep.
+  - right. assert (Hcceq : cc = p_conf (sP s4)) by lia. split; [exact Hcceq|].
+    assert (P4' : PInv (p_sess (sP s4)) (sP s4)) by (rewrite (pi_sess _ _ P4); exact P4).
+    destruct (p_request_resend (sP s4) cc W P4' Ha Hr Hcceq Hlt ltac:(lia) Hmax)
+      as (p5 & o5 & m1 & H5 & [rest Hres] & Q1 & Q2 & Q3 & Q4 & Q5 & Q6).
+    rewrite <- Hreq in H5.
+    assert (I5 : Inv (sys_step s4 (lastPC s4))) by (apply step_inv; auto).
+    rewrite E5 in *. rewrite (sys_p_view s4 _ p5 o5 H5) in *. cbn [sP sC netPC netCC]. pose proof (pi_sess _ _ P4) as Hse. rewrite Hres, Hse in *.
+    splits; auto. eauto.
+Qed.
+
+(* phase 5: the first resent message reaches the consumer controller; the confirmation loop can start *)
+Lemma phase_resent s5 k m1 P0 :
+  Inv s5 -> p_failed (sP s5) = false -> p_reg (sP s5) = true -> p_nonce (sP s5) = c_nonce (sC s5) -> c_sess (sC s5) = sess ->
+  c_res (sC s5) = true -> p_conf (sP s5) = P0 -> c_conf (sC s5) = P0 -> c_upto (sC s5) = P0 + W ->
+  nth_error (netCC s5) k = Some (SeqMsg sess m1 (P0 + 1)) ->
+  Sync sess W P0 (sys_step s5 (DeliverCC k true)).
+Proof.
+  intros I5 Ha Hr Hn Hs Hres Hp Hc Hu Hnth.
+  pose proof (iC _ _ _ I5) as C5.
+  destruct (c_seqmsg_expected (sC s5) true sess m1 (P0 + 1) (ci_failed _ _ _ C5) Hres Hs sess_nz)
+    as (c6 & o6 & H6 & O6 & [e6 [F1 F2]] & F3 & F4 & F5 & F6 & F7 & F8 & F9 & F10 & F11).
+  { pose proof (ci_exp _ _ _ C5). lia. }
+  { pose proof (ci_conf _ _ _ C5). lia. }
+  { intros e He. pose proof (ci_infl _ _ _ C5 e He). pose proof (ci_exp _ _ _ C5). lia. }
+  assert (I6 : Inv (sys_step s5 (DeliverCC k true))) by (apply step_inv; auto).
+  rewrite (step_deliverCC s5 _ true _ Hnth) in *. rewrite (sys_c_view s5 _ c6 o6 H6) in *.
+  constructor; cbn [sP sC]; auto; try congruence. eauto.
+Qed.
+
 Theorem recover_progress s :
   Inv s -> p_failed (sP s) = false -> 1 <= c_nnonce (sC s) -> p_cur (sP s) < maxI64 - 1 ->
   p_conf (sP s) < p_cur (sP s) ->
   p_conf (sP s) < p_conf (sP (run s (recover s))).
 Proof.
   intros I0 Ha Hnn Hmax Hlt. unfold recover.
-  (* tick 1 *)
-  pose proof (iC _ _ _ I0) as C0.
-  destruct (cc_step (sC s) (CTick false true)) as [c1 o1] eqn:H1.
-  destruct (tick_exact _ _ _ _ (ci_failed _ _ _ C0) H1) as (S1 & Hsaw1 & _).
-  assert (E1 : sys_step s (TickCC true) = mkS (sP s) c1 (netPC s ++ outs_toPC o1) (netCC s) (toProd s) (toCons s ++ outs_toCons o1))
-    by (rewrite step_tick; apply sys_c_view; exact H1).
-  assert (I1 : Inv (sys_step s (TickCC true))) by (apply step_inv; auto).
-  assert (Hnn1 : 1 <= c_nnonce c1) by (eapply nn_step; eassumption).
-  rewrite E1 in *. set (s1 := mkS (sP s) c1 _ _ _ _) in *.
-  (* tick 2: silent, so it re-registers with a fresh nonce *)
-  pose proof (iC _ _ _ I1) as C1.
-  destruct (cc_step c1 (CTick false true)) as [c2 o2] eqn:H2.
-  destruct (tick_exact _ _ _ _ (ci_failed _ _ _ C1) H2) as (S2 & Hsaw2 & Hreg2). destruct (Hreg2 Hsaw1) as (N2 & R2 & O2).
-  change (sC s1) with c1 in N2, O2, S2.
-  assert (E2 : sys_step s1 (TickCC true) = mkS (sP s) c2 (netPC s1 ++ [Register (c_nnonce c1)]) (netCC s) (toProd s) (toCons s1 ++ outs_toCons o2)).
-  { rewrite step_tick. rewrite (sys_c_view s1 _ c2 o2 H2). rewrite O2. reflexivity. }
-  assert (I2 : Inv (sys_step s1 (TickCC true))) by (apply step_inv; auto).
-  rewrite E2 in *. set (n2 := c_nnonce c1) in *. set (s2 := mkS (sP s) c2 _ _ _ _) in *.
-  (* the registration reaches the producer controller *)
-  pose proof (iP _ _ _ I0) as P0.
-  destruct (p_register_exact (sP s) n2 Ha ltac:(rewrite (pi_sess _ _ P0); exact sess_nz) ltac:(destruct (pi_range _ _ P0); assumption) ltac:(lia))
-    as (p3 & H3 & G1 & G2 & G3 & G4 & G5 & G6 & G7 & G8).
-  assert (E3 : sys_step s2 (lastPC s2) = mkS p3 c2 (netPC s2) (netCC s ++ [RegAck (p_sess (sP s)) (p_conf (sP s) + 1) n2]) (toProd s2 ++ []) (toCons s2)).
-  { unfold lastPC. rewrite (step_deliverPC s2 _ (Register n2)); [|apply nth_last]. rewrite (sys_p_view s2 _ p3 _ H3). reflexivity. }
-  assert (I3 : Inv (sys_step s2 (lastPC s2))) by (apply step_inv; auto).
-  rewrite E3 in *. set (s3 := mkS p3 c2 _ _ _ _) in *.
-  (* its acknowledgement reaches the consumer controller: timeout Request with the current watermark *)
-  pose proof (iC _ _ _ I2) as C2. cbn [sC s2] in C2.
-  destruct S1 as (T1 & T2 & T3 & T4 & T5 & T6 & T7). destruct S2 as (U1 & U2 & U3 & U4 & U5 & U6 & U7).
-  pose proof (pe_chain _ _ _ (iE _ _ _ I0)) as Hch0.
-  assert (Hw2 : c_window c2 = W) by (apply (ci_w _ _ _ C2)).
-  destruct (c_regack_exact c2 true (p_sess (sP s)) (p_conf (sP s) + 1) (ci_failed _ _ _ C2) R2
-              ltac:(rewrite (pi_sess _ _ P0); exact sess_nz) ltac:(rewrite (pi_sess _ _ P0); apply (ci_sess _ _ _ C2)))
-    as (c4 & H4 & V1 & V2 & V3 & V4 & V5 & V6 & V7 & V8 & V9 & V10).
-  { intros Hz. destruct (ci_unadopted _ _ _ C2 Hz) as (Z1 & Z2 & Z3 & Z4). pose proof (ci_exp _ _ _ C2).
-    destruct (pi_range _ _ P0). splits; auto; try lia. }
-  rewrite N2 in H4. fold n2 in H4.
-  set (cc := c_conf c2) in *.
-  assert (Hcc : cc = c_conf (sC s)) by (subst cc; congruence).
-  assert (E4 : sys_step s3 (lastCC s3) = mkS p3 c4 (netPC s2 ++ [Request (p_sess (sP s)) n2 cc (cc + W) true]) (netCC s3) (toProd s3) (toCons s3 ++ [])).
-  { unfold lastCC. rewrite (step_deliverCC s3 _ true (RegAck (p_sess (sP s)) (p_conf (sP s) + 1) n2)); [|apply nth_last].
-    rewrite (sys_c_view s3 _ c4 _ H4). rewrite Hw2. reflexivity. }
-  assert (I4 : Inv (sys_step s3 (lastCC s3))) by (apply step_inv; auto).
-  rewrite E4 in *. set (s4 := mkS p3 c4 _ _ _ _) in *.
-  (* the Request reaches the producer controller *)
-  set (req := Request (p_sess (sP s)) n2 cc (cc + W) true) in *.
-  assert (L5 : nth_error (netPC s4) (length (netPC s4) - 1) = Some req) by apply nth_last.
-  assert (E5 : sys_step s4 (lastPC s4) = fst (sys_p s4 (PFromCC true req))) by (unfold lastPC; apply step_deliverPC; exact L5).
-  assert (I5 : Inv (sys_step s4 (lastPC s4))) by (apply step_inv; auto).
-  destruct (Z_lt_le_dec (p_conf (sP s)) cc) as [Hgt|Hle].
-  - (* the consumer had confirmed more than the producer knew: the Request itself advances the watermark *)
-    assert (Hc5 : p_conf (sP (sys_step s4 (lastPC s4))) = cc).
-    { rewrite E5. unfold sys_p. cbn [sP s4].
-      assert (Hrep : p_conf (fst (pc_step p3 (PFromCC true req))) = cc).
-      { apply p_report_conf; auto; try lia.
-        - left. exists (cc + W), true. split; [unfold req; rewrite G8, G2; reflexivity|lia].
-        - pose proof (ci_conf _ _ _ C0). lia. }
-      destruct (pc_step p3 (PFromCC true req)). exact Hrep. }
-    rewrite Hc5. destruct (Z.ltb_spec (p_conf (sP s)) cc); [|lia].
-    cbn [run fold_left]. rewrite E1. fold s1. rewrite E2. fold s2. rewrite E3. fold s3. rewrite E4. fold s4. rewrite Hc5. exact Hgt.
-  - (* equal watermarks: the Request grants demand and the first unconfirmed message is resent *)
-    assert (Hcceq : cc = p_conf (sP s)) by lia.
-    assert (P3 : PInv (p_sess p3) p3) by (rewrite G8, (pi_sess _ _ P0); apply (iP _ _ _ I3)).
-    destruct (p_request_resend p3 cc W P3 G7 G1 ltac:(lia) ltac:(lia) ltac:(lia) ltac:(lia))
-      as (p5 & o5 & m1 & H5 & [rest Hres] & Q1 & Q2 & Q3 & Q4 & Q5 & Q6).
-    rewrite G8, G2 in H5. fold req in H5.
-    assert (E5' : sys_step s4 (lastPC s4) = mkS p5 c4 (netPC s4) (netCC s4 ++ SeqMsg (p_sess p3) m1 (cc + 1) :: rest) (toProd s4 ++ outs_toProd o5) (toCons s4)).
-    { rewrite E5. rewrite (sys_p_view s4 _ p5 o5 H5). rewrite Hres. reflexivity. }
-    rewrite E5' in *. set (s5 := mkS p5 c4 _ _ _ _) in *.
-    cbn [sP s5]. rewrite Q1, G3. rewrite Z.ltb_irrefl.
-    (* the resent message reaches the consumer controller *)
-    pose proof (iC _ _ _ I5) as C5. cbn [sC s5] in C5.
-    assert (L6 : nth_error (netCC s5) (length (netCC s4)) = Some (SeqMsg (p_sess p3) m1 (cc + 1))).
-    { cbn [netCC s5]. rewrite nth_error_app2 by lia. rewrite Nat.sub_diag. reflexivity. }
-    destruct (c_seqmsg_expected c4 true (p_sess p3) m1 (cc + 1) (ci_failed _ _ _ C5) V8 ltac:(rewrite G8; exact V1)
-                ltac:(rewrite G8, (pi_sess _ _ P0); exact sess_nz))
-      as (c6 & o6 & H6 & O6 & [e6 [F1 F2]] & F3 & F4 & F5 & F6 & F7 & F8 & F9 & F10 & F11).
-    { pose proof (ci_exp _ _ _ C5). lia. }
-    { rewrite V4, V9, Hw2. pose proof (ci_conf _ _ _ C2). fold cc. lia. }
-    { intros e He. pose proof (ci_infl _ _ _ C5 e He). pose proof (ci_exp _ _ _ C5). lia. }
-    assert (E6 : sys_step s5 (DeliverCC (length (netCC s4)) true) = mkS p5 c6 (netPC s5 ++ []) (netCC s5) (toProd s5) (toCons s5 ++ outs_toCons o6)).
-    { rewrite (step_deliverCC s5 _ true _ L6). rewrite (sys_c_view s5 _ c6 o6 H6). rewrite O6. reflexivity. }
-    assert (I6 : Inv (sys_step s5 (DeliverCC (length (netCC s4)) true))) by (apply step_inv; auto).
-    rewrite E6 in *. set (s6 := mkS p5 c6 _ _ _ _) in *.
-    (* run the prefix, then the confirmation loop *)
-    cbn [run fold_left app]. rewrite E1. fold s1. rewrite E2. fold s2. rewrite E3. fold s3. rewrite E4. fold s4. rewrite E5'. fold s5.
-    rewrite E6. fold s6.
+  destruct (phase_ticks s I0 Hnn) as (I2 & A1 & A2 & (l2 & n2 & A3 & A4 & A5) & A6 & A7).
+  set (s2 := sys_step (sys_step s (TickCC true)) (TickCC true)) in *.
+  destruct (phase_register s2 l2 n2 I2 ltac:(rewrite A1; exact Ha) A3 A4) as (I3 & B1 & B2 & B3 & B4 & B5 & B6 & B7 & B8).
+  set (s3 := sys_step s2 (lastPC s2)) in *.
+  destruct (phase_ack s3 (netCC s2) (p_conf (sP s2))) as (I4 & D1 & D2 & D3 & D4 & D5 & D6 & D7 & D8); auto.
+  { rewrite B3, B1, A5. reflexivity. }
+  { rewrite B1. exact A6. }
+  set (s4 := sys_step s3 (lastCC s3)) in *.
+  destruct A7 as (T1 & T2 & T3 & T4 & T5 & T6 & T7).
+  assert (Hpc4 : p_conf (sP s4) = p_conf (sP s)) by (rewrite D1, B6, A1; reflexivity).
+  assert (Hcur4 : p_cur (sP s4) = p_cur (sP s)) by (rewrite D1, B7, A1; reflexivity).
+  destruct (phase_request s4 (netPC s3) (c_conf (sC s3))) as [[E1 E2]|(E1 & I5 & E3 & E4 & (m1 & rest & E5) & E6 & E7 & E8 & E9)]; auto.
+  { rewrite D1. exact B8. } { rewrite D1. exact B4. } { rewrite D1, B5, D5, B1. symmetry. exact A5. }
+  { rewrite D3, D5. reflexivity. } { rewrite Hcur4. exact Hmax. } { rewrite Hpc4, Hcur4. exact Hlt. }
+  - (* the Request itself advanced the watermark *)
+    fold s2 s3 s4. rewrite E2. rewrite Hpc4 in E1.
+    destruct (Z.ltb_spec (p_conf (sP s)) (c_conf (sC s3))); [|lia].
+    cbn [run fold_left]. fold s2 s3 s4. rewrite E2. exact E1.
+  - fold s2 s3 s4. set (s5 := sys_step s4 (lastPC s4)) in *.
+    rewrite E6, Hpc4, Z.ltb_irrefl.
+    cbn [run fold_left app]. fold s2 s3 s4 s5.
+    set (s6 := sys_step s5 (DeliverCC (length (netCC s4)) true)).
     change (fold_left sys_step (confirm_loop (S (length (c_buf (sC s6)))) s6) s6) with (run s6 (confirm_loop (S (length (c_buf (sC s6)))) s6)).
     apply (confirm_loop_progress sess W sess_nz W_pos W_cap); [|lia].
-    constructor; cbn [sP sC s6]; auto; try congruence.
-    + rewrite Q4, G2, F6, V2. exact N2.
-    + rewrite F7, V1. apply (pi_sess _ _ P0).
-    + eauto.
+    apply (phase_resent s5 (length (netCC s4)) m1 (p_conf (sP s))); auto; try congruence.
+    rewrite E5. rewrite nth_error_app2 by lia. rewrite Nat.sub_diag. rewrite <- Hpc4, <- E1. reflexivity.
 Qed.
 
 Lemma recover_legit s : forallb legit (recover s) = true.
